@@ -495,3 +495,58 @@ Qed.
 Lemma prepare_response_noresult qid mask tl2 e err body :
   bit mask 7 = true -> prepare_response qid mask tl2 e err body = PNoResult.
 Proof. intros H. unfold prepare_response. rewrite H. reflexivity. Qed.
+
+(** * Responses through a handler context, directly and across a longpoll *)
+Lemma respond_direct_eq q e err body :
+  respond_direct q e err body = prepare_response (q_id q) (rq_flags (q_extra q)) (q_tl2 q) e err body.
+Proof. reflexivity. Qed.
+
+(** the longpoll save / restore loses nothing that the response depends on: in particular the request's
+    flags word (requestExtraFieldsmask), the body format and the no_result bit *)
+Lemma longpoll_preserves_request_mask q :
+  let '(qid, l) := start_longpoll (hctx_of_request q) in
+  finish_longpoll qid l = hctx_of_request q /\
+  hf_mask (h_fields (finish_longpoll qid l)) = rq_flags (q_extra q).
+Proof. destruct q. cbn. split; reflexivity. Qed.
+
+Lemma respond_longpoll_eq q e err body :
+  respond_longpoll q e err body = prepare_response (q_id q) (rq_flags (q_extra q)) (q_tl2 q) e err body.
+Proof. reflexivity. Qed.
+
+(** end to end over the longpoll path: the client sees the extra restricted to what its request asked for *)
+Theorem longpoll_response_roundtrip qid actor re tl2 rbody tag rw e body w :
+  u64 qid -> u64 actor -> req_extra_ok re -> body_starts rbody tag -> ~ is_wrapper_tag tag ->
+  prepare_request qid actor re tl2 rbody = Some rw ->
+  resp_extra_ok e ->
+  (tl2 = false -> exists t, body_starts body t /\ ~ is_resp_special t) ->
+  match parse_request rw with
+  | Ok q => respond_longpoll q e None body = PWire w ->
+            parse_response tl2 w = Ok {| a_id := qid; a_extra := norm_resp (N.land (rs_flags e) (rq_flags re)) e;
+                                         a_out := OBody body |}
+  | _ => False
+  end.
+Proof.
+  intros Hq Ha Hre Hb Hn Hp He Hbody.
+  rewrite (request_roundtrip _ _ _ _ _ _ _ Hq Ha Hre Hb Hn Hp).
+  rewrite respond_longpoll_eq. cbn [q_id q_extra q_tl2].
+  assert (Hf : rq_flags (norm_req re) = rq_flags re) by (destruct re; reflexivity).
+  rewrite Hf. intro Hw. eapply response_roundtrip; eauto.
+Qed.
+
+Theorem longpoll_error_roundtrip qid actor re tl2 rbody tag rw e code desc body w :
+  u64 qid -> u64 actor -> req_extra_ok re -> body_starts rbody tag -> ~ is_wrapper_tag tag ->
+  prepare_request qid actor re tl2 rbody = Some rw ->
+  resp_extra_ok e -> u32 code -> str_ok desc ->
+  match parse_request rw with
+  | Ok q => respond_longpoll q e (Some (code, desc)) body = PWire w ->
+            parse_response tl2 w = Ok {| a_id := qid; a_extra := norm_resp (N.land (rs_flags e) (rq_flags re)) e;
+                                         a_out := OError (if code =? 0 then unknown_code else code) desc [] |}
+  | _ => False
+  end.
+Proof.
+  intros Hq Ha Hre Hb Hn Hp He Hc Hd.
+  rewrite (request_roundtrip _ _ _ _ _ _ _ Hq Ha Hre Hb Hn Hp).
+  rewrite respond_longpoll_eq. cbn [q_id q_extra q_tl2].
+  assert (Hf : rq_flags (norm_req re) = rq_flags re) by (destruct re; reflexivity).
+  rewrite Hf. intro Hw. eapply response_error_roundtrip; eauto.
+Qed.
